@@ -137,4 +137,17 @@ CLAIMS = {
                 'is exempt (DESIGN.md section 7, F7).',
         'technique': 'CFG must-pass / pairing rules with correlated-condition edge cuts + symbolic composition of two functions on an abstract link heap',
     },
+    'C04': {
+        'text': 'The forest property is an inductive invariant of run-time structures; what is decided is its preservation obligation at every '
+                'function that writes a parent / child / sibling link: who may write the three fields and call their setters; the single '
+                'non-null attachTo() site is dominated by not-self, not-current-parent, not-a-scratch-copy, the ancestor-walk result, the '
+                'chain-length guard, successful registration with the new parent, and the detach of the old parent; the three list primitives '
+                '(child, sibling, removeChild) are executed symbolically and must have exactly the specified write sets (append only when '
+                'absent, refuse self, unlink exactly the removed node); freeSlot leaves its parent and orphans only children that name it as '
+                'parent; PUT_COPY refuses attached slots and rebuilds the links; TEMP_COPY marks its copy; finalisation rebuilds the base '
+                'chain over bases only.  The induction itself (that these steps compose to a forest for every rule sequence) is argued in '
+                'DESIGN.md and not mechanised.',
+        'note': 'Trusted: clang 14 CFG, tools/grfacts, rules/c04.py, rules/linksym.py, rules/dom.py, the tabled writer sets.',
+        'technique': 'dominance-fact rules + symbolic execution of list primitives over an abstract heap + who-may-write tables',
+    },
 }
